@@ -81,13 +81,15 @@ def make_case(rng, big=False):
     return {"ids": ids, "mtypes": mtypes, "rows": rows, "agg": agg, "form": form, "gk": gk, "gids": gids, "having": having, "aggr": aggr_items}
 
 
-def agg_value(a, values, multi_measure_with_nulls=False):
+def agg_value(a, values, multi_measure_with_nulls=False, ungrouped_dataset_level=False):
     """values: list incl. None. -> value | None | 'UNSPEC'"""
     from vf import model
     xs = [v for v in values if v is not None]
     if a == "count":
+        if not xs and ungrouped_dataset_level and not multi_measure_with_nulls:
+            return 0             # the count of nothing over the whole operand is 0, never null
         if multi_measure_with_nulls or not xs:
-            return "UNSPEC"      # count over only-null values: 0 and null are both defensible
+            return "UNSPEC"      # count of an all-null *group*: 0 and null are both defensible
         return len(xs)
     if not xs:
         return None
@@ -160,7 +162,7 @@ def model_run(case):
         if case["form"] == "aggr":
             vals = [agg_value(a, cols[m], False) for _, a, m in case["aggr"]]
         elif case["agg"] == "count":
-            vals = [agg_value("count", cols[0], nme > 1 and any_null)]
+            vals = [agg_value("count", cols[0], nme > 1 and any_null, ungrouped_dataset_level=not gids)]
         else:
             vals = [agg_value(case["agg"], c) for c in cols]
         if any(v == "UNSPEC" for v in vals):
@@ -238,6 +240,17 @@ def run_shard(spec, emit):
     from vf import eng
     rng = random.Random(f"C03-{spec['seed']}-{spec['shard']}")
     bud = eng.Budget(spec.get("budget_s", 100 if spec["tier"] == "quick" else 2400))
+    # boundary shapes every shard sees once: whole-operand aggregates (no grouping / group except every identifier) over operands
+    # whose measure is null everywhere, null nowhere, or that hold a single datapoint
+    for agg in (["count", "sum", "min"] if spec["shard"] % 2 else ["count", "avg", "max"]):
+        for gk in ("none", "except-all"):
+            for fill in ("all-null", "no-null", "single"):
+                c = make_case(rng)
+                c.update(agg=agg, form="standalone", gk=gk, gids=[n for n, _ in c["ids"]] if gk == "except-all" else [], having=None, aggr=None, mtypes=["Integer"])
+                nid = len(c["ids"])
+                rows = [r[:nid] + [None if fill == "all-null" else (i % 5) + 1] for i, r in enumerate(c["rows"] or [[1, "a", 10][:nid] + [None]])]
+                c["rows"] = rows[:1] if fill == "single" else rows
+                run_case(c, emit)
     for i in range(spec["n"]):
         if not bud.ok():
             emit({"v": "inc", "why": "cut by wall-clock budget"})
